@@ -51,6 +51,13 @@ Example C05_inc_carry_refuted :
   in_bounds rid_cmp (fst (rb_author_prefix inc_carry 1 2 p)) (snd (rb_author_prefix inc_carry 1 2 p)) (1, 2, k) = true.
 Proof. exact rb_author_prefix_inc_carry_refuted. Qed.
 
+(** the window: skip the offset, truncate to the limit -- for every u64 value of either (the model
+    counts down in [N] along the list; a limit of 2^64-1 is an ordinary value) *)
+Theorem C05_window_is_skipn_firstn : forall q l,
+  window q l = let l' := skipn (N.to_nat (q_offset q)) l in
+               match q_limit q with Some n => firstn (N.to_nat n) l' | None => l' end.
+Proof. exact window_spec. Qed.
+
 Print Assumptions C05_namespace_bounds_exact.
 Print Assumptions C05_author_prefix_bounds_exact.
 Print Assumptions C05_author_exact_bounds_exact.
@@ -77,3 +84,4 @@ Check (eq_refl : wf_index = fun T =>
 
 Print Assumptions C05_query_is_its_specification.
 Print Assumptions C05_queries_exact_after_any_inserts.
+Print Assumptions C05_window_is_skipn_firstn.
